@@ -109,6 +109,9 @@ func (c *Ctx) debugCloseGo() {
 // statement after that statement without first waiting for the goroutine.
 func (c *Ctx) checkNoCloseAfterGo(rule string, rels ...string) {
 	L := c.L
+	if c.Thorough() {
+		rels = nil // thorough tier: every package of the module
+	}
 	L.Rule(rule, "a function that starts a goroutine does not, on a path that continues from the go statement without a join (WaitGroup.Wait, channel receive, select), call Close on a value that already existed when the goroutine was started: the goroutine may still be reading from it (a multi-alignment stream would be cut at the buffered part)")
 	nGo := 0
 	for _, fn := range c.srcFuncs(rels...) {
